@@ -15,13 +15,13 @@ PLAN = {
                 gen_q=("continue,waves,storm,wait,rebudget,fbhold,dup,innerflow", 90), gen_t=("continue,waves,storm,wait,rebudget,fbhold,dup,innerflow", 2600)),
     "C08": dict(mc_q=[("gated", 3, 2, 1, True), ("conc", 2, 2, 2, False)],
                 mc_t=[("gated", 4, 3, 1, True), ("conc", 3, 2, 2, False), ("conc", 3, 3, 1, False)],
-                gen_q=("barrier,continue,rerun,backoff,storm", 60), gen_t=("barrier,continue,stop,rerun,backoff,storm", 1000)),
+                gen_q=("barrier,continue,rerun,backoff,storm,longbatch", 60), gen_t=("barrier,continue,stop,rerun,backoff,storm,longbatch", 1000)),
     "C09": dict(mc_q=[("seq", 3, 1, 2, True), ("gated", 3, 2, 2, True), ("gatedcancel", 2, 2, 1, True), ("conc", 2, 2, 2, False)],
                 mc_t=[("seq", 4, 1, 2, True), ("gated", 4, 3, 1, True), ("gated", 3, 2, 2, True), ("gatedcancel", 3, 2, 2, True), ("conc", 3, 2, 2, False)],
                 gen_q=("stop,cancel,bigstop,onestop,stoprace,deadlinewait", 80), gen_t=("stop,cancel,bigstop,onestop,stoprace,deadlinewait", 2000)),
     "C11": dict(mc_q=[("gatedcancel", 2, 2, 2, True), ("wait", 2, 2, 2, True), ("cancel", 2, 2, 1, False)],
                 mc_t=[("gatedcancel", 3, 2, 2, True), ("wait", 3, 2, 2, True), ("cancel", 3, 2, 2, False)],
-                gen_q=("cancel,waitcancel", 120), gen_t=("cancel,waitcancel", 3000)),
+                gen_q=("cancel,waitcancel,bigcancel", 120), gen_t=("cancel,waitcancel,bigcancel", 3000)),
     # batch parts of engine-family properties
     "C02": dict(mc_q=[("seq", 2, 1, 3, True), ("gated", 2, 2, 2, True)], mc_t=[("seq", 3, 1, 4, True), ("gated", 3, 2, 3, True)],
                 gen_q=("continue,stop,storm,waves,rebudget", 60), gen_t=("continue,stop,storm,waves,rebudget", 1500)),
@@ -237,6 +237,9 @@ def run(pid, tier, seed):
     if pid == "C11":
         import fam_engine
         parts.append(("engine", fam_engine.collect(pid, tier, seed, d, binp)))   # batch nodes as steps of a (looping) flow
+    if pid == "C07":
+        import fam_timing
+        parts.append(("timing", fam_timing.collect(pid, tier, seed, d, binp)))   # per-item budgets under waits and far deadlines
     if pid == "C08":
         import fam_pool
         parts.append(("pool", fam_pool.collect(pid, tier, seed, d)))   # the worker pool's own bound
